@@ -59,7 +59,7 @@ func TestC17_Contended(t *testing.T) {
 		wg.Add(1)
 		go func() {
 			defer wg.Done()
-			request(c.Cmd)(ctx, p)
+			request(c.Cmd, false)(ctx, p)
 		}()
 	}
 	// wait until the hanging plugins really run
